@@ -98,11 +98,13 @@ T_OutLists == {<<OTAB>>, <<O2, OTAB>>, <<OC, OTAB>>} \cup {<<r, OTAB>> : r \in R
 T_Shapes == {"u_udp", "t_tcp"}
 
 \* ---- C: the port-flag product
+CQ_FlowLists == {<<OFL>>, <<OALL>>, <<OC>>}
 C_FlowLists == {<<OFL>>, <<OALL>>, <<O1>>, <<OIN>>, <<OC>>, <<O2, OFL>>}
 C_OutLists == {<<OFL>>, <<OALL>>, <<O1>>, <<OIN>>, <<OTAB>>}
 C_Shapes == {"u_udp", "bpdu"}
+C_BadOps == {[mask |-> Bits, conf |-> {"PORT_DOWN", "NO_FLOOD", "NO_RECV_STP"}]}
 \* quick: all 64 flag sets on port 1
-CQ_ModOps == [p \in {1} |-> BitOps(Bits) \cup WideOps]
+CQ_ModOps == [p \in {1} |-> BitOps(Bits)]
 \* thorough: x the 8 sets over {PORT_DOWN, NO_FLOOD, NO_FWD} on port 2
 CT_ModOps == [p \in {1, 2} |-> IF p = 1 THEN BitOps(Bits) \cup WideOps
                                         ELSE BitOps({"PORT_DOWN", "NO_FLOOD", "NO_FWD"})]
@@ -111,6 +113,7 @@ CT_ModOps == [p \in {1, 2} |-> IF p = 1 THEN BitOps(Bits) \cup WideOps
 D_FlowLists == {<<OC, DST, O2>>, <<VID7, OC, STRIP, OC0>>, <<OC64>>, <<NSRC, OC, TPS>>}
 D_BufLists == {<<O3>>, <<NDST, OFL>>, <<OIN>>, <<OC>>, <<>>}
 D_Shapes == {"u_udp", "t_tcp"}
+DQ_Shapes == {"t_tcp"}
 
 \* ---- F: fragments and the OFPC_FRAG_DROP mode
 F_FlowLists == {<<O2>>, <<TPS, NSRC, O2>>}
